@@ -226,6 +226,11 @@ func flattenAnd(t *Term) []*Term {
 }
 
 func (e *Engine) staticObl(kind, where string, ok bool, detail string, tags []string) {
+	if strings.HasPrefix(kind, "frame/") && e.fi != nil && e.fi.Contract != nil && e.fi.Contract.Attrs["callrequires"] == "assumed" {
+		// a program entry point owns everything it builds: the frame rule (what a library function may write) does
+		// not apply to it
+		return
+	}
 	r := "static-ok"
 	if !ok {
 		r = "static-fail"
@@ -522,6 +527,19 @@ func (e *Engine) assignTo(l ast.Expr, v Value, st *State) {
 		}
 		if _, isVar := obj.(*types.Var); !isVar {
 			unsup("assign to non-variable %s", lx.Name)
+		}
+		// //@ attr frozen = a, b: locals that hold command-line flags (filled in by the flag package through their
+		// address) are not assigned by the program itself: what the user asked for is what is used
+		if e.fi != nil && e.fi.Contract != nil && len(e.frames) == 1 {
+			if fz := e.fi.Contract.Attrs["frozen"]; fz != "" {
+				if _, bound := st.vars[obj]; bound {
+					for _, n := range strings.Split(fz, ",") {
+						if strings.TrimSpace(n) == lx.Name {
+							e.staticObl("frozen/"+lx.Name, e.src(l), false, "the flag variable "+lx.Name+" is assigned by the program after it was declared", nil)
+						}
+					}
+				}
+			}
 		}
 		if obj.Parent() == obj.Pkg().Scope() {
 			unsup("assignment to package-level variable %s", lx.Name)
